@@ -350,6 +350,9 @@ def materialise(world, scratch):
         else:
             tgt = os.path.join(base, "nonexistent")
         os.symlink(tgt, p)
+    if world.get("gitinit"):
+        subprocess.run(["git", "init", "-q", root], stdout=subprocess.DEVNULL, stderr=subprocess.DEVNULL,
+                       env=dict(os.environ, HOME=home, GIT_CONFIG_NOSYSTEM="1"))
     for f in world.get("files", []) or []:
         p = os.path.join(paths[f.get("parent", 0)], _chars(f["name"]))
         os.makedirs(os.path.dirname(p), exist_ok=True)
@@ -392,6 +395,14 @@ def snapshot(w, world, digests=False):
     import pwd
     import grp
     snap = []
+    ignored = set()
+    if world.get("gitinit"):
+        rels = [os.path.relpath(w.paths[n["id"]], w.paths[0]) for n in world.get("nodes", [])]
+        p = subprocess.run(["git", "-C", w.paths[0], "check-ignore", "--stdin", "-z"], input="\0".join(rels).encode(),
+                           stdout=subprocess.PIPE, stderr=subprocess.PIPE, env=dict(os.environ, HOME=w.home, GIT_CONFIG_NOSYSTEM="1"))
+        if p.returncode not in (0, 1):
+            raise ToolError("git check-ignore failed: %s" % p.stderr.decode()[:200])
+        ignored = set(x for x in p.stdout.decode().split("\0") if x)
     for n in sorted(world.get("nodes", []), key=lambda n: n["id"]):
         p = w.paths[n["id"]]
         st = os.lstat(p)
@@ -400,6 +411,8 @@ def snapshot(w, world, digests=False):
                "uid": str(st.st_uid), "gid": str(st.st_gid), "mtime": int(st.st_mtime),
                "sizen": st.st_size if st.st_size < 2 ** 31 else -1, "uidn": st.st_uid, "gidn": st.st_gid,
                "sizec": list(str(st.st_size)), "nlinkn": st.st_nlink, "blocksn": st.st_blocks if st.st_blocks < 2 ** 31 else -1}
+        if world.get("gitinit"):
+            rec["gitignored"] = os.path.relpath(p, w.paths[0]) in ignored
         try:
             rec["user"] = pwd.getpwuid(st.st_uid).pw_name
         except KeyError:
